@@ -189,6 +189,7 @@ def type_reverse(object):
         return base64.standard_b64decode(encoded)
 
 
+MAX_REAUTH_ATTEMPTS = 3
 _async_auth_glock = asyncio.Lock()
 _async_auth_locks = weakref.WeakKeyDictionary()
 _sync_auth_glock = threading.Lock()
@@ -220,17 +221,20 @@ def requires_auth(func):
                     async with lock:
                         pass
 
-            try:
-                return await func(self, *a, **ka)
-            except exceptions.AuthRequired:
-                if not self._async_auth_lock.locked():
-                    async with self._async_auth_lock:
-                        await self.authenticate()
-                else:
-                    async with self._async_auth_lock:
-                        pass
+            # Refresh the authorization a limited number of times, so that a request
+            # that keeps failing ends with an error instead of being retried forever
+            for _ in range(MAX_REAUTH_ATTEMPTS):
+                try:
+                    return await func(self, *a, **ka)
+                except exceptions.AuthRequired:
+                    if not self._async_auth_lock.locked():
+                        async with self._async_auth_lock:
+                            await self.authenticate()
+                    else:
+                        async with self._async_auth_lock:
+                            pass
 
-                return await wrapper(self, *a, **ka)
+            return await func(self, *a, **ka)
 
     else:
 
@@ -252,19 +256,20 @@ def requires_auth(func):
                     with lock:
                         pass
 
-            try:
-                return func(self, *a, **ka)
-            except exceptions.AuthRequired:
-                if self._auth_lock.acquire(blocking=False):
-                    try:
-                        self.authenticate()
-                    finally:
-                        self._auth_lock.release()
-                else:
-                    with self._auth_lock:
-                        pass
+            for _ in range(MAX_REAUTH_ATTEMPTS):
+                try:
+                    return func(self, *a, **ka)
+                except exceptions.AuthRequired:
+                    if self._auth_lock.acquire(blocking=False):
+                        try:
+                            self.authenticate()
+                        finally:
+                            self._auth_lock.release()
+                    else:
+                        with self._auth_lock:
+                            pass
 
-                return wrapper(self, *a, **ka)
+            return func(self, *a, **ka)
 
     wrapper = functools.wraps(func)(wrapper)
     return wrapper
